@@ -10,6 +10,7 @@
 #include <unordered_map>
 #include <vector>
 #include <nop/base/encoding.h>
+#include <nop/base/logical_buffer.h>
 #include <nop/base/map.h>
 #include <nop/base/serializer.h>
 #include <nop/base/string.h>
@@ -45,3 +46,10 @@ VT_VM(vt::VecU8, vecu8)
 VT_VM(vt::VecU32, vecu32)
 VT_VM(vt::Str, str)
 VT_VM(vt::WStr, wstr)
+
+// logical buffer (array + count members) with multi-byte elements and a NARROW count member: 200 x uint16_t counted by a
+// uint8_t — byte lengths (up to 510) do not fit the count member's type
+using LB16 = nop::LogicalBuffer<std::uint16_t[200], std::uint8_t, false>;
+std::size_t x_lb_size(const LB16* v) { return nop::Encoding<LB16>::Size(*v); }
+nop::Status<void> x_lb_rd(LB16* v, vt::SpecReader* r) { return nop::Encoding<LB16>::ReadPayload(nop::EncodingByte::Binary, v, r); }
+nop::Status<void> x_lb_wr(const LB16* v, vt::SpecWriter* w) { return nop::Encoding<LB16>::WritePayload(nop::EncodingByte::Binary, *v, w); }
